@@ -282,6 +282,8 @@ def parse_dump(line):
     """'ACCEPT |P .. #  |T .. @ |P ..' -> (stack, memory, claims) lists of (kind, pattern)."""
     assert line.startswith('ACCEPT')
     rest = line[len('ACCEPT'):]
+    if rest.startswith(' !'):   # verify accepted but the harness could not re-run the phases to dump the state
+        return [], [], []
     claims_part = ''
     if ' @' in rest:
         rest, claims_part = rest.split(' @', 1)
